@@ -210,6 +210,30 @@ pub fn exec_oracle(kind: &str, fields: &[&str]) -> String {
                 "oracle pass".to_string()
             })
         }
+        "S_C04E" => {
+            // an invocation and its expansion written out: refused alike or accepted alike, and then the same operation
+            let Some((spec, rest)) = crate::exec::parse_ctx(fields) else { return "bad-case".to_string() };
+            let (a, b) = (unescape(rest[0]), unescape(rest[1]));
+            let data = parse_data(rest[2]);
+            crate::exec::with_ctx(&spec, |ctx| {
+                match (ctx.op(&a), ctx.op(&b)) {
+                    (Err(_), Err(_)) => "oracle pass both refused".to_string(),
+                    (Ok(_), Err(e)) => format!("oracle FAIL {a} is accepted, its expansion {b} is refused ({e})"),
+                    (Err(e), Ok(_)) => format!("oracle FAIL {a} is refused ({e}), its expansion {b} is accepted"),
+                    (Ok(oa), Ok(ob)) => {
+                        for fwd in [true, false] {
+                            let (mut da, mut db) = (data.clone(), data.clone());
+                            let na = ctx.apply(oa, if fwd { Fwd } else { Inv }, &mut da).unwrap_or(usize::MAX);
+                            let nb = ctx.apply(ob, if fwd { Fwd } else { Inv }, &mut db).unwrap_or(usize::MAX);
+                            if na != nb || da.iter().zip(db.iter()).any(|(x, y)| !same_bits(x, y)) {
+                                return format!("oracle FAIL {a} is not its expansion {b} ({})", if fwd { "forward" } else { "inverse" });
+                            }
+                        }
+                        "oracle pass".to_string()
+                    }
+                }
+            })
+        }
         "S_INVMOD" => {
             // the `inv` modifier, behind or in front of the operator's name, exchanges the two directions of the
             // operator - whatever the operator: `def inv` forward is `def` inverse, and the other way round
